@@ -994,7 +994,11 @@ func (c *Core) smcComplete(ue *UE, env nas.Envelope) {
 		ies = append(ies, ngap.IE{ngap.IDMobilityRestrictionList, ngap.Ignore, must(ngap.EncMobilityRestrictionList(c.PLMN))})
 	}
 	if ue.P.ICSOpt&4 != 0 {
-		ies = append(ies, ngap.IE{ngap.IDUERadioCapability, ngap.Ignore, ngap.EncOctetString([]byte{0x01, 0x02, 0x03, 0x04})})
+		rc := []byte{0x01, 0x02, 0x03, 0x04}
+		for len(rc) < ue.P.RadioCapLen { // a UE radio capability container of realistic size (hundreds of octets)
+			rc = append(rc, byte(len(rc)*7))
+		}
+		ies = append(ies, ngap.IE{ngap.IDUERadioCapability, ngap.Ignore, ngap.EncOctetString(rc)})
 	}
 	if ue.P.ICSOpt&8 != 0 {
 		ies = append(ies, ngap.IE{ngap.IDIndexToRFSP, ngap.Ignore, must(ngap.EncInt1to256(7, true))})
